@@ -180,6 +180,11 @@ func (mr *MigrationRunner) runMigration(ctx context.Context, migrationIndex uint
 		return ctx.Err()
 	}
 
+	if err != nil {
+		// Cancelled without a resume token: the migration did not complete and must run again.
+		return err
+	}
+
 	mr.metadata.CurrentVersion.Set(migrationIndex)
 	txn := mr.database.NewBatch()
 	if err := WriteSchemaMetadata(txn, mr.metadata); err != nil {
